@@ -25,6 +25,7 @@ type World struct {
 	contracts      map[*ssa.Function]*Contract
 	ifaceContracts map[string]*Contract
 	allContracts   []*Contract
+	race           *raceInfo
 	typeIDs        map[string]int
 	typeNames      []string
 	ldefs          map[*ssa.Function]map[string][]localDef
@@ -111,6 +112,7 @@ func loadWorld(dir string, overlay map[string][]byte) (*World, error) {
 	if err := w.parseLibSpecs("/verif/libspec"); err != nil {
 		return nil, err
 	}
+	w.instantiateGenericContracts()
 	return w, nil
 }
 
@@ -347,4 +349,41 @@ func (w *World) closureStoredIn(fn *ssa.Function, name string) *ssa.Function {
 		}
 	}
 	return nil
+}
+
+// instantiateGenericContracts: a contract on a generic function is verified on (and used at calls of) every
+// instantiation that occurs in the program; the type parameters in its clauses denote the instance's type arguments.
+func (w *World) instantiateGenericContracts() {
+	var add []*Contract
+	for _, c := range w.allContracts {
+		if c.Fn == nil || c.Fn.TypeParams().Len() == 0 || len(c.Fn.TypeArgs()) > 0 {
+			continue
+		}
+		var insts []*ssa.Function
+		for fn := range ssautil.AllFunctions(w.prog) {
+			if fn.Origin() == c.Fn && len(fn.TypeArgs()) > 0 {
+				concrete := true
+				for _, ta := range fn.TypeArgs() {
+					if _, isTP := ta.(*types.TypeParam); isTP {
+						concrete = false
+					}
+				}
+				if concrete {
+					insts = append(insts, fn)
+				}
+			}
+		}
+		sort.Slice(insts, func(i, j int) bool { return insts[i].Name() < insts[j].Name() })
+		for _, fn := range insts {
+			cc := *c
+			cc.Fn = fn
+			cc.Name = fn.Name()
+			w.contracts[fn] = &cc
+			add = append(add, &cc)
+		}
+		if len(insts) > 0 {
+			c.Verify = false // the instances are the units
+		}
+	}
+	w.allContracts = append(w.allContracts, add...)
 }
